@@ -25,7 +25,7 @@ RULE = ("cases: random recipes (all connectives, depth<=5, fan-out<=8, DAG shari
         ' Also: hostile twins of the base recipe run in the same process, the same definition through another class (aliases), leaves wider than 32 bits, and the bounded sweep of small formulas shared with C04.')
 BUDGET = {"quick": (12, 450, 90), "thorough": (16, 2500, 1200)}
 PYTEST = True     # thorough tier also runs the repository's own tests under these monitors
-MANDATORY = ["judged:active-iff-true", "judged:inactive-feasible", "judged:columns", "contract:AtLeast.to_ge_polyhedron"]
+MANDATORY = ["judged:active-iff-true", "judged:inactive-feasible", "judged:columns", "contract:AtLeast.to_ge_polyhedron", "contract:StingyConfigurator.ge_polyhedron"]
 
 _n = 0
 
@@ -139,11 +139,27 @@ def poly_post(pre, args, kwargs, result):
     return True
 
 
+def cfg_post(pre, args, kwargs, result):
+    """StingyConfigurator.ge_polyhedron is 'the system produced for the model (top node asserted)' of a configurator"""
+    return poly_post(pre, (args[0], True, False), {}, result)
+
+
 def install(ctx):
+    import puan.modules.configurator as cc
     monitor.attach(pg.AtLeast, "to_ge_polyhedron", poly_post, snap)
+    monitor.attach(cc.StingyConfigurator, "ge_polyhedron", cfg_post, snap, label="StingyConfigurator.ge_polyhedron")
 
 
 def gen_case(rng, tier, ctx, i):
+    if rng.random() < 0.1:
+        from . import confgen
+        rec = confgen.gen_config(rng)
+        if rng.random() < 0.6:
+            # a mandatory item / a forbidden item next to rules with nested negations
+            rec["args"].append(confgen.V(rng.choice(confgen.ITEMS[:4])) if rng.random() < 0.5 else {"k": "Not", "id": None, "args": [confgen.V(rng.choice(confgen.ITEMS[:4]))]})
+            inner = {"k": "All", "id": None, "args": [{"k": "Not", "id": None, "args": [confgen.V(x)]} for x in rng.sample(confgen.ITEMS[:5], 2)]}
+            rec["args"].append({"k": "Imply", "id": None, "args": [inner, confgen.V(rng.choice(confgen.ITEMS[:5]))]})
+        return {"recipe": rec, "configurator": True}
     if rng.random() < 0.12:
         from . import c04
         ctx.count("count:bounded-sweep-formulas")
@@ -162,6 +178,9 @@ def _run_one(case, ctx):
     common.domain(m)
     ctx.call("to_ge_polyhedron(True)", m.to_ge_polyhedron, True)
     ctx.call("to_ge_polyhedron(False)", m.to_ge_polyhedron, active=False)
+    if case.get("configurator"):
+        ctx.count("count:configurator-polyhedra")
+        ctx.call("ge_polyhedron", lambda: m.ge_polyhedron)
 
 
 def run_case(case, ctx):
